@@ -27,6 +27,7 @@ type Case struct {
 	HypOK      bool        `json:"hyp_ok"`         // case meets the theorem's hypotheses
 	HypLine    string      `json:"hyp_line,omitempty"` // model line that evaluates the theorem's hypotheses on this case (prints 1/0)
 	Replay     interface{} `json:"replay,omitempty"`
+	Trace      []string    `json:"trace,omitempty"` // yield-point labels passed (C07)
 }
 
 var (
